@@ -200,6 +200,239 @@ impl<'a> ProgGen<'a> {
     }
 }
 
+#[derive(Clone, Copy, PartialEq)]
+pub enum T {
+    Int,
+    Float,
+    Bool,
+    Str,
+    Tuple,
+    Empty,
+    Any,
+}
+
+/// Type-directed generator: most programs are well-typed and run to completion through many effects; a wrong-typed
+/// operand, a failing call or an unknown variable is planted now and then (`slips` of them at most).
+pub struct TypedGen<'a> {
+    pub r: &'a mut Rng,
+    pub k: i64,
+    pub slips: usize,
+}
+
+impl<'a> TypedGen<'a> {
+    fn k(&mut self) -> i64 {
+        self.k += 1;
+        self.k
+    }
+    fn c(&mut self, name: &str) -> Ast {
+        let k = self.k();
+        call(name, k)
+    }
+    fn bin(&mut self, op: &'static str, a: Ast, b: Ast) -> Ast {
+        Ast::Bin(op, Box::new(a), Box::new(b))
+    }
+    fn callt(&mut self, f: &str, args: Vec<Ast>) -> Ast {
+        let arg = if args.len() == 1 { args.into_iter().next().unwrap() } else { Ast::Tuple(args) };
+        Ast::Call(f.to_string(), Box::new(arg))
+    }
+    pub fn gen(&mut self, want: T, depth: usize) -> Ast {
+        // a planted slip: another type, a failing call, an unknown variable
+        if self.slips > 0 && self.r.chance(1, 14) {
+            self.slips -= 1;
+            return match self.r.below(4) {
+                0 => self.c("fail"),
+                1 => {
+                    let k = self.k();
+                    Ast::Read(format!("u{}", k))
+                },
+                _ => {
+                    let other = *self.r.pick(&[T::Int, T::Float, T::Bool, T::Str, T::Tuple, T::Empty]);
+                    self.gen(other, depth.min(1))
+                },
+            };
+        }
+        let want = if want == T::Any { *self.r.pick(&[T::Int, T::Int, T::Float, T::Bool, T::Str, T::Tuple, T::Empty]) } else { want };
+        let leaf = depth == 0 || self.r.chance(1, 6);
+        let d = depth.saturating_sub(1);
+        match want {
+            T::Int => {
+                if leaf {
+                    return match self.r.below(5) {
+                        0 | 1 => self.c("t"),
+                        2 => Ast::Const(RV::Int(self.r.below(20) as i64)),
+                        3 => Ast::Read("x".into()),
+                        _ => Ast::Read("y".into()),
+                    };
+                }
+                match self.r.below(9) {
+                    0..=3 => {
+                        let op = *self.r.pick(&["+", "-", "*", "+", "-", "/", "%"]);
+                        let (a, b) = (self.gen(T::Int, d), self.gen(T::Int, d));
+                        self.bin(op, a, b)
+                    },
+                    4 => Ast::Un("neg", Box::new(self.gen(T::Int, d))),
+                    5 => {
+                        let (c, a, b) = (self.gen(T::Bool, d), self.gen(T::Int, d), self.gen(T::Int, d));
+                        self.callt("if", vec![c, a, b])
+                    },
+                    6 => {
+                        let f = *self.r.pick(&["max", "min"]);
+                        let (a, b) = (self.gen(T::Int, d), self.gen(T::Int, d));
+                        self.callt(f, vec![a, b])
+                    },
+                    7 => {
+                        let s = self.gen(T::Str, d);
+                        self.callt("len", vec![s])
+                    },
+                    _ => {
+                        let (a, b) = (self.gen(T::Any, d), self.gen(T::Int, d));
+                        Ast::Chain(vec![a, b])
+                    },
+                }
+            },
+            T::Float => {
+                if leaf {
+                    return match self.r.below(3) {
+                        0 => self.c("fl"),
+                        1 => Ast::Const(RV::Float(self.r.below(9) as f64 / 2.0)),
+                        _ => Ast::Read("xf".into()),
+                    };
+                }
+                match self.r.below(5) {
+                    0 | 1 => {
+                        let op = *self.r.pick(&["+", "-", "*", "/", "^"]);
+                        let tb = if self.r.chance(1, 2) { T::Int } else { T::Float };
+                        let (a, b) = (self.gen(T::Float, d), self.gen(tb, d));
+                        self.bin(op, a, b)
+                    },
+                    2 => {
+                        let (a, b) = (self.gen(T::Int, d), self.gen(T::Int, d));
+                        self.bin("^", a, b)
+                    },
+                    3 => {
+                        let f = *self.r.pick(&["floor", "ceil", "round", "math::sqrt", "math::abs"]);
+                        let a = self.gen(T::Float, d);
+                        self.callt(f, vec![a])
+                    },
+                    _ => Ast::Un("neg", Box::new(self.gen(T::Float, d))),
+                }
+            },
+            T::Bool => {
+                if leaf {
+                    return match self.r.below(3) {
+                        0 => self.c("b"),
+                        1 => Ast::Const(RV::Bool(self.r.chance(1, 2))),
+                        _ => Ast::Read("xb".into()),
+                    };
+                }
+                match self.r.below(6) {
+                    0 | 1 => {
+                        let op = *self.r.pick(&["<", ">", "<=", ">=", "==", "!="]);
+                        let t = if self.r.chance(2, 3) { T::Int } else { T::Str };
+                        let (a, b) = (self.gen(t, d), self.gen(t, d));
+                        self.bin(op, a, b)
+                    },
+                    2 | 3 => {
+                        let op = *self.r.pick(&["&&", "||"]);
+                        let (a, b) = (self.gen(T::Bool, d), self.gen(T::Bool, d));
+                        self.bin(op, a, b)
+                    },
+                    4 => Ast::Un("!", Box::new(self.gen(T::Bool, d))),
+                    _ => {
+                        let (a, b) = (self.gen(T::Any, d), self.gen(T::Any, d));
+                        let op = if self.r.chance(1, 2) { "==" } else { "!=" };
+                        self.bin(op, a, b)
+                    },
+                }
+            },
+            T::Str => {
+                if leaf {
+                    return match self.r.below(3) {
+                        0 => self.c("s"),
+                        1 => Ast::Const(RV::Str(self.r.pick(&["", "a", "bc", "x y"]).to_string())),
+                        _ => Ast::Read("xs".into()),
+                    };
+                }
+                match self.r.below(4) {
+                    0 | 1 => {
+                        let (a, b) = (self.gen(T::Str, d), self.gen(T::Str, d));
+                        self.bin("+", a, b)
+                    },
+                    2 => {
+                        let a = self.gen(T::Any, d);
+                        self.callt("typeof", vec![a])
+                    },
+                    _ => {
+                        let f = *self.r.pick(&["str::to_uppercase", "str::to_lowercase", "str::trim", "id"]);
+                        let a = self.gen(T::Str, d);
+                        self.callt(f, vec![a])
+                    },
+                }
+            },
+            T::Tuple => {
+                let n = self.r.range(2, 4);
+                Ast::Tuple((0..n).map(|_| self.gen(T::Any, d)).collect())
+            },
+            T::Empty | T::Any => {
+                if leaf && self.r.chance(1, 3) {
+                    return Ast::Empty;
+                }
+                // assignments keep the variable's type
+                match self.r.below(5) {
+                    0 => Ast::Assign("=", "x".into(), Box::new(self.gen(T::Int, d))),
+                    1 => {
+                        let op = *self.r.pick(&["+=", "-=", "*="]);
+                        Ast::Assign(op, "y".into(), Box::new(self.gen_no_assign(T::Int, d)))
+                    },
+                    2 => Ast::Assign("=", "xs".into(), Box::new(self.gen(T::Str, d))),
+                    3 => {
+                        let op = *self.r.pick(&["&&=", "||="]);
+                        Ast::Assign(op, "xb".into(), Box::new(self.gen_no_assign(T::Bool, d)))
+                    },
+                    _ => Ast::Assign("=", "fresh".into(), Box::new(self.gen(T::Any, d))),
+                }
+            },
+        }
+    }
+    /// the right-hand side of an op-assignment contains no assignment
+    fn gen_no_assign(&mut self, want: T, depth: usize) -> Ast {
+        for _ in 0..8 {
+            let a = self.gen(want, depth);
+            if !a.has_assign() {
+                return a;
+            }
+        }
+        match want {
+            T::Bool => self.c("b"),
+            _ => self.c("t"),
+        }
+    }
+}
+
+pub fn typed_model() -> Model {
+    let mut m = base_model();
+    m.vars.insert("x".into(), RV::Int(5));
+    m.vars.insert("y".into(), RV::Int(-2));
+    m.vars.insert("xf".into(), RV::Float(1.5));
+    m.vars.insert("xb".into(), RV::Bool(true));
+    m.vars.insert("xs".into(), RV::Str("q".into()));
+    m
+}
+
+pub fn typed_program(r: &mut Rng, max_depth: usize) -> Ast {
+    let depth = r.range(2, max_depth);
+    let slips = if r.chance(1, 2) { 0 } else { r.below(3) };
+    let mut g = TypedGen { r, k: 0, slips };
+    // a chain of statements ending in a value
+    let n = g.r.range(1, 5);
+    let mut stmts: Vec<Ast> = (0..n).map(|_| g.gen(T::Any, depth)).collect();
+    if stmts.len() == 1 {
+        stmts.pop().unwrap()
+    } else {
+        Ast::Chain(stmts)
+    }
+}
+
 pub fn random_program(r: &mut Rng, max_depth: usize) -> Ast {
     let depth = r.range(1, max_depth);
     let fail_budget = r.below(4);
@@ -285,9 +518,16 @@ impl Phase for Random {
         self.n
     }
     fn run(&mut self, _idx: u64, r: &mut Rng, out: &mut Out) {
-        let ast = random_program(r, 10);
-        let m = random_model(r);
-        check_program(out, &ast, &m, r);
+        if r.chance(1, 2) {
+            // type-directed: long programs that mostly run to completion
+            let ast = typed_program(r, 8);
+            check_program(out, &ast, &typed_model(), r);
+            out.count("type-directed programs");
+        } else {
+            let ast = random_program(r, 10);
+            let m = random_model(r);
+            check_program(out, &ast, &m, r);
+        }
     }
 }
 
